@@ -53,7 +53,10 @@ def seg(rng, cls, ivals, fvals):
         if k == "N": return "WN,%d" % rng.randint(-9, 99)          # a type without a Show instance (generic fallback text)
         return "W%s,%s" % (k, str(rng.choice(ivals)) if k == "I" else ("%016x" % rng.choice(fvals)) if k == "F" else h(rng.choice(STRS)))
     if cls == "showc":
-        k = rng.choice("ALTUDXRVv")
+        k = rng.choice("ALTUDXRVvMm")
+        if k in "Mm":         # a Tree / Table whose values are wider than its keys
+            ks = rng.sample(range(-5, 40), rng.choice([0, 1, 3, 5]))
+            return "W%s,%s" % (k, ",".join("%d,%d" % (kk, 1000 + kk) for kk in ks))
         if k in "Vv":         # a Slice over a keyed container: yields (and shows) the keys
             ks = rng.sample(range(0, 12), rng.choice([0, 1, 3, 4]))
             return "W%s,%s" % (k, ",".join("%d,%d" % (kk, 100 + kk) for kk in ks))
